@@ -12,7 +12,7 @@ Definition probe_positions (GW mask : Z) (n : nat) (p0 : Z) : list Z :=
 
 Extraction "../ocaml/extracted/hb.ml"
   Z.add Z.mul Z.sub Z.div Z.modulo Z.of_nat Z.to_nat Z.eqb Z.ltb Z.leb Z.land Z.pow
-  Gen.capacity_to_buckets Gen.bucket_mask_to_capacity Gen.calculate_layout_for
+  Gen.capacity_to_buckets Gen.bucket_mask_to_capacity Gen.calculate_layout_for Gen.table_layout_new
   Gen.is_in_same_group Gen.h1 Gen.tag_full Gen.tag_is_full Gen.tag_is_special Gen.tag_special_is_empty
   Gen.probe_seq probe_positions Gen.rehash_guard_unconditional Gen.serde_cautious Gen.split_mid
   Group.sse2_backend Group.generic_backend
